@@ -158,3 +158,5 @@ def generate(repo, files, report):
     files["Gen_aggregator.v"] = gen_aggregator(repo, report)
     import targets_prob
     targets_prob.generate(repo, files, report)
+    import targets_cli
+    targets_cli.generate(repo, files, report)
